@@ -50,7 +50,7 @@ func (c19Prop) Phases(tier string) []PhaseCfg {
 	radix := []int{8, 2, 2, 4, 4, 4}
 	n := 50_000
 	if tier == "thorough" {
-		n = 3_000_000
+		n = 15_000_000
 	}
 	return []PhaseCfg{{Name: "structural-sweep", Radix: radix, Count: product(radix), P: map[string]int{"seeded_tail": 1}}, {Name: "seeded", Count: n}, pairPhase(4_000, 300_000, tier)}
 }
